@@ -370,6 +370,9 @@ func canonDecimal(s string) (string, bool) {
 }
 
 func decimalFromDigits(digits int64, precision uint32) string {
+	if precision > 40 {
+		return fmt.Sprintf("%de-%d", digits, precision)
+	}
 	neg := digits < 0
 	var ds string
 	if neg {
